@@ -29,11 +29,16 @@ type FG struct {
 	psub    map[*ssa.Parameter]ssa.Value
 	csub    map[*ssa.Call][]ssa.Value
 	csubM   map[*ssa.Call][][]ssa.Value // helpers with several returns: every result tuple
+	entries []int                       // region graphs: where the region is entered (virtual.go)
+	alias   []pathAlias                 // region graphs: how access paths are renamed
 }
 
 type Edge struct{ from, to int }
 
 func (w *World) FG(fn *ssa.Function) *FG {
+	if g, ok := w.virt[fn]; ok {
+		return g
+	}
 	if g, ok := w.fgs[fn]; ok {
 		return g
 	}
@@ -111,6 +116,9 @@ func (g *FG) reach(starts []int, avoid []bool, cut map[Edge]bool) []bool {
 func (g *FG) entry() []int {
 	if len(g.ins) == 0 {
 		return nil
+	}
+	if g.entries != nil {
+		return g.entries
 	}
 	return []int{0}
 }
